@@ -292,6 +292,28 @@ pub fn run_case(case: &Value, trace: &mut Trace) {
         peer.set_nonblocking(false).unwrap();
         log.push(json!({"ev": "hook", "p": "flooded", "caller": 0, "ok": flooded}));
     }
+    // wait() under a watchdog.  With "wait_first" the owner is already blocked inside wait() while the schedule runs (the
+    // shutdown requests then come from other threads during the wait); otherwise wait() is called after the schedule.
+    let wait_first = case["wait_first"].as_bool().unwrap_or(false);
+    let (tx, rx) = std::sync::mpsc::channel();
+    let mut daemon_opt = Some(daemon);
+    let spawn_waiter = |mut daemon: VhostUserDaemon<Arc<TB<VringRwLock<GM>>>>, tx: std::sync::mpsc::Sender<String>| {
+        std::thread::spawn(move || {
+            let r = daemon.wait();
+            let s = match &r {
+                Ok(()) => "Ok".to_string(),
+                Err(vhost_user_backend::Error::HandleRequest(e)) => format!("Err:{}", errkind(e)),
+                Err(e) => format!("Err:{}", errkind(e)),
+            };
+            let _ = tx.send(s);
+            daemon
+        })
+    };
+    let mut waiter = None;
+    if wait_first {
+        waiter = Some(spawn_waiter(daemon_opt.take().unwrap(), tx.clone()));
+        std::thread::sleep(Duration::from_millis(5));
+    }
     let mut caller_threads: Vec<std::thread::JoinHandle<()>> = Vec::new();
     let mut peer_opt = Some(peer);
     let quiet = Duration::from_millis(2);
@@ -366,18 +388,10 @@ pub fn run_case(case: &Value, trace: &mut Trace) {
     for t in caller_threads {
         let _ = t.join();
     }
-    // wait() under a watchdog
-    let (tx, rx) = std::sync::mpsc::channel();
-    let waiter = std::thread::spawn(move || {
-        let r = daemon.wait();
-        let s = match &r {
-            Ok(()) => "Ok".to_string(),
-            Err(vhost_user_backend::Error::HandleRequest(e)) => format!("Err:{}", errkind(e)),
-            Err(e) => format!("Err:{}", errkind(e)),
-        };
-        let _ = tx.send(s);
-        daemon
-    });
+    if waiter.is_none() {
+        waiter = Some(spawn_waiter(daemon_opt.take().unwrap(), tx.clone()));
+    }
+    let waiter = waiter.unwrap();
     let wait_res = rx.recv_timeout(Duration::from_secs(10)).unwrap_or_else(|_| "hang".to_string());
     // what does the peer see?
     let mut peer_eof = "closed_by_peer".to_string();
